@@ -169,7 +169,13 @@ func Session(t *tape.Tape) *core.RunResult {
 			if t.Chance(3, 5) {
 				cl := classes[t.Choose(len(classes))]
 				bound := search.Bound(t.Choose(2))
-				ops = append(ops, opIn{kind: "write", hash: h, cls: cl, pl: payload{bound: bound, score: float32(c*1000 + i + 1), from: board.Square(c), to: board.Square(i), promo: board.Piece(1 + (c+i)%5)}})
+				pl := payload{bound: bound, score: float32(c*1000 + i + 1), from: board.Square(c), to: board.Square(i), promo: board.Piece(1 + (c+i)%5)}
+				if t.Chance(1, 4) {
+					// a store without a move (what a leaf stores): the tuple is still one store's, zero move included
+					pl.from, pl.to, pl.promo = 0, 0, 0
+					res.Probe("move-less-store")
+				}
+				ops = append(ops, opIn{kind: "write", hash: h, cls: cl, pl: pl})
 			} else {
 				ops = append(ops, opIn{kind: "read", hash: h})
 			}
